@@ -22,9 +22,9 @@ import (
 type ptSpec struct {
 	Batched bool
 	DLevel  int
-	Scale   uint64  // bgv: scale mod t (0: default)
-	LogS    int     // ckks: log2 scale (0: default)
-	Cols    int     // ckks: LogDimensions.Cols (0: default)
+	Scale   uint64 // bgv: scale mod t (0: default)
+	LogS    int    // ckks: log2 scale (0: default)
+	Cols    int    // ckks: LogDimensions.Cols (0: default)
 	NTT     bool
 }
 
@@ -144,15 +144,19 @@ func bgvEncoderTarget() *Target {
 	}}
 	t := &Target{
 		Name: "bgv.Encoder", Envs: []string{"bgv"},
-		Type: reflect.TypeOf(&bgv.Encoder{}),
-		New:  func(e *Env) interface{} { return bgv.NewEncoder(e.BGV) },
+		Type:      reflect.TypeOf(&bgv.Encoder{}),
+		New:       func(e *Env) interface{} { return bgv.NewEncoder(e.BGV) },
 		NotTabled: map[string]string{"GetRLWEParameters": "accessor", "ShallowCopy": "copy constructor (C10)"},
 	}
 	t.Rows = []Row{
 		{Method: "Encode", Doc: "encodes an IntegerSlice on a pre-allocated plaintext (at the plaintext's level / scale / domain)", Kinds: encK, Out: ptOutFromSpec(1),
-			Call: func(rcv interface{}, in []interface{}, o interface{}) (interface{}, error) { return o, rcv.(E).Encode(in[0], o.(*rlwe.Plaintext)) }},
+			Call: func(rcv interface{}, in []interface{}, o interface{}) (interface{}, error) {
+				return o, rcv.(E).Encode(in[0], o.(*rlwe.Plaintext))
+			}},
 		{Method: "Decode", Doc: "decodes a plaintext on an IntegerSlice mod PlaintextModulus", Kinds: decK, Out: valuesOut(1),
-			Call: func(rcv interface{}, in []interface{}, o interface{}) (interface{}, error) { return o, rcv.(E).Decode(in[0].(*rlwe.Plaintext), o) }},
+			Call: func(rcv interface{}, in []interface{}, o interface{}) (interface{}, error) {
+				return o, rcv.(E).Decode(in[0].(*rlwe.Plaintext), o)
+			}},
 		{Method: "EncodeRingT", Doc: "encodes an IntegerSlice at the given scale on a polynomial pT with coefficients modulo the plaintext modulus",
 			Kinds: []Kind{
 				{Name: "[]uint64,scale", Class: "[]uint64", Names: []string{"values", "scale"}, Make: func(e *Env, g *Gen) []interface{} {
@@ -347,9 +351,13 @@ func ckksEncoderTarget() *Target {
 	}
 	t.Rows = []Row{
 		{Method: "Encode", Doc: "encodes a FloatSlice on the target plaintext, at the level and scale of the plaintext, domain according to its metadata", Kinds: encK, Out: ptOutFromSpec(1),
-			Call: func(rcv interface{}, in []interface{}, o interface{}) (interface{}, error) { return o, rcv.(E).Encode(in[0], o.(*rlwe.Plaintext)) }},
+			Call: func(rcv interface{}, in []interface{}, o interface{}) (interface{}, error) {
+				return o, rcv.(E).Encode(in[0], o.(*rlwe.Plaintext))
+			}},
 		{Method: "Decode", Doc: "decodes the input plaintext on a FloatSlice", Kinds: decK, Out: valuesOut,
-			Call: func(rcv interface{}, in []interface{}, o interface{}) (interface{}, error) { return o, rcv.(E).Decode(in[0].(*rlwe.Plaintext), o) }},
+			Call: func(rcv interface{}, in []interface{}, o interface{}) (interface{}, error) {
+				return o, rcv.(E).Decode(in[0].(*rlwe.Plaintext), o)
+			}},
 		{Method: "DecodePublic", Doc: "decodes the input plaintext on a FloatSlice, rounding to logprec bits", Kinds: decK, Out: valuesOut,
 			Call: func(rcv interface{}, in []interface{}, o interface{}) (interface{}, error) {
 				return o, rcv.(E).DecodePublic(in[0].(*rlwe.Plaintext), o, 20)
@@ -384,9 +392,13 @@ func ckksEncoderTarget() *Target {
 				return o, rcv.(E).Embed(in[0], in[1].(*rlwe.MetaData), o)
 			}},
 		{Method: "FFT", Doc: "evaluates the special 2^{LogN}-th decoding discrete Fourier transform on FloatSlice (in place)", Kinds: fftK, Out: fftOut("FFT"),
-			Call: func(rcv interface{}, in []interface{}, o interface{}) (interface{}, error) { return o, rcv.(E).FFT(o, in[0].(int)) }},
+			Call: func(rcv interface{}, in []interface{}, o interface{}) (interface{}, error) {
+				return o, rcv.(E).FFT(o, in[0].(int))
+			}},
 		{Method: "IFFT", Doc: "evaluates the special 2^{LogN}-th encoding discrete Fourier transform on FloatSlice (in place)", Kinds: fftK, Out: fftOut("IFFT"),
-			Call: func(rcv interface{}, in []interface{}, o interface{}) (interface{}, error) { return o, rcv.(E).IFFT(o, in[0].(int)) }},
+			Call: func(rcv interface{}, in []interface{}, o interface{}) (interface{}, error) {
+				return o, rcv.(E).IFFT(o, in[0].(int))
+			}},
 	}
 	return t
 }
